@@ -186,6 +186,29 @@ static void specials() {
 	// read-back witnesses: (62, -2^-51); a qd whose second limb is exactly half an ulp and whose third limb decides
 	dd_to(double2bits(62.0), double2bits(-0x1p-51));
 	dd_to(double2bits(-62.0), double2bits(0x1p-51));
+	// the repaired truncation: integer heads with a fractional tail of either sign, tails with an integer part, heads in
+	// [2^63, 2^64] (unsigned reads), the int64 limits
+	{
+		const double heads[] = { 1.0, 2.0, 62.0, 0x1p31, 0x1p32, 0x1p52, 0x1p53, 0x1p60, 0x1p62, 0x1p63, 0x1p63 + 2048.0, 0x1p64 - 2048.0, 0x1p64, 4503599627370497.0, 0.5, 1.5, 0.0 };
+		const double tails[] = { 0.0, 0x1p-60, -0x1p-60, 0.25, -0.25, 0.5, -0.5, 1.0, -1.0, 3.5, -3.5, 100.75, -100.75, 1023.5, -1023.5, 0x1p-1074, -0x1p-1074 };
+		for (double h : heads) for (double t : tails) {
+			if (std::fabs(t) > std::fabs(h) && h != 0.0) continue;
+			dd_to(double2bits(h), double2bits(t)); dd_to(double2bits(-h), double2bits(t));
+			uint64_t q[4] = { double2bits(h), double2bits(t), 0, 0 }; qd_to(q);
+			uint64_t r[4] = { double2bits(-h), double2bits(t), 0, 0 }; qd_to(r);
+		}
+		// qd: two integer limbs, the third (or fourth) limb carries the fraction
+		const double h2[] = { 5.0, 0x1p60, 0x1p62 + 1024.0, 0x1p63, 0x1p63 + 4096.0, 0x1p64 - 2048.0 };
+		const double t2[] = { 0.0, 3.0, -3.0 };
+		const double f2[] = { 0x1p-55, -0x1p-55, 0x1p-80, -0x1p-80 };
+		for (double h : h2) for (double t : t2) for (double f : f2) for (int sg = 0; sg < 2; ++sg) {
+			if (std::fabs(t) * 0x1p53 > std::fabs(h) * 1.0 && t != 0.0 && h < 0x1p54) continue;
+			double s = sg ? -1.0 : 1.0;
+			uint64_t q[4] = { double2bits(s * h), double2bits(t), double2bits(f), 0 }; qd_to(q);
+			uint64_t r[4] = { double2bits(s * h), double2bits(t), double2bits(f), double2bits(-f * 0x1p-60) }; qd_to(r);
+			uint64_t u[4] = { double2bits(s * h), double2bits(t), 0, double2bits(f * 0x1p-60) }; qd_to(u);
+		}
+	}
 	{ uint64_t q[4] = { double2bits(1.0), double2bits(0x1p-53), double2bits(0x1p-110), 0 }; qd_to(q); }
 	{ uint64_t q[4] = { double2bits(1.0), double2bits(0x1p-53), double2bits(-0x1p-110), 0 }; qd_to(q); }
 	{ uint64_t q[4] = { double2bits(1.0 + 0x1p-52), double2bits(-0x1p-53), double2bits(0x1p-110), double2bits(0x1p-170) }; qd_to(q); }
